@@ -128,6 +128,22 @@ def r17_3_check_then_act(repo: Repo, rep: Report):
     starts = [c for c in method_calls(sub, "start") if src(c.func.value) == "future"]
     ok = len(apps) == 1 and len(starts) == 1 and id(apps[0]) in in_lock and id(starts[0]) in in_lock and apps[0].lineno < starts[0].lineno
     rep.check("R17.3", ok, m, lk, "self._futures.append(future); future.start() inside `with self._lock`, in that order", "the job must be registered before it is started, both under the lock (shutdown sweeps _futures under the lock)")
+    # the registry only grows: a job leaves it never (shutdown must find every accepted job, also one whose process the
+    # worker has not created yet -- is_running() is false for it)
+    mc, pe = repo.cls("processes.PopenExecutor")
+    shrink = []
+    for n in ast.walk(pe):
+        if isinstance(n, ast.Attribute) and n.attr == "_futures" and isinstance(n.ctx, (ast.Store, ast.Del)):
+            f = mc.enclosing_func(n)
+            if f is None or f.name != "__init__":
+                shrink.append(n)
+        elif isinstance(n, ast.Call) and isinstance(n.func, ast.Attribute) and n.func.attr in ("remove", "pop", "clear", "discard", "__delitem__") and src(n.func.value).endswith("_futures"):
+            shrink.append(n)
+        elif isinstance(n, ast.Delete) and any("_futures" in src(t) for t in n.targets):
+            shrink.append(n)
+    for n in shrink:
+        rep.bad("R17.3", mc, n, f"{mc.qual(n)}: {src(mc.parents.get(n, n))[:90]}", "a registered job is dropped from the registry: shutdown(wait=False) does not cancel it and _join does not wait for it (its solver process survives the shutdown)")
+    rep.ok("R17.3", mc, pe, f"PopenExecutor._futures is only bound in __init__ and appended to ({len(shrink)} other writers)")
     reads = [c for c in body_walk(sub) if isinstance(c, ast.Call) and src(c.func) in ("self._shutdown.is_set", "self.is_shutdown")]
     if not reads:
         rep.bad("R17.3", m, sub, "self._shutdown.is_set()", "submit does not check the shutdown flag: jobs are accepted after shutdown")
